@@ -272,3 +272,32 @@ func Param(name string, def int) int {
 	}
 	return def
 }
+
+// FaultAtAnyStep arms a one-shot fault (e.g. a context cancellation): under the
+// interpreter, at every visible operation of any thread the path may choose to
+// fire it, so "the fault happens at any step" is explored exhaustively.
+// Natively the fault is fired by the harness according to the recorded event
+// order (or immediately if none was recorded).
+func FaultAtAnyStep(f func()) { nativeFault = f }
+
+// FaultDisarm disarms a fault that has not fired (natively: fires it if the
+// replayed path had fired it — recorded as event "fault").
+func FaultDisarm() {
+	mu.Lock()
+	f := nativeFault
+	nativeFault = nil
+	fired := false
+	if replay != nil {
+		for _, e := range replay.Events {
+			if e == "fault" {
+				fired = true
+			}
+		}
+	}
+	mu.Unlock()
+	if f != nil && fired {
+		f()
+	}
+}
+
+var nativeFault func()
